@@ -575,7 +575,11 @@ def check_property(prop, tier, jobs, keep=False):
                         "native_output": "loop bound derived from the configuration exceeded: " + ", ".join(rec["unwind_failed"])}
             else:
                 broken.append("%s: %s %s" % (rec["id"], v, "; ".join(rec["notes"])[:600] or rec.get("vacuous") or rec.get("unwind_failed")))
-                continue
+                if v not in ("vacuous", "unwind_bound"):
+                    continue
+                # a missing reachability witness or an exceeded loop bound invalidates the labels that PASSED;
+                # labels that failed (and reproduce natively) are still violations
+                rec["labels"] = {k: st for k, st in rec["labels"].items() if st != "SUCCESS"}
         for key, st in rec["labels"].items():
             if st == "SUCCESS" and prop in props_of_label(ob, key):
                 labels_ok += 1
